@@ -156,7 +156,7 @@ def check(r):
         r.violation(what, rep)
     if r.tier == 'thorough':
         r.hygiene('Props/C16.v')
-        r.coqchk('Props/C16.v')
+        r.coqchk('Props/C16.v', norec=False)
 
 
 def falsify(r):
